@@ -277,7 +277,7 @@ def run(ctx):
             selfres.setdefault(j[1], {})[j[2]] = r
     for sid, per in selfres.items():
         r = sby[sid]
-        rec = {"k": "sf", "id": rid, "left": len(r["project_includes_left"]), "pragmas": r["pragma_once_count"],
+        rec = {"k": "sf", "id": rid, "left": len(r["project_includes_left"]), "pragmas": r["pragma_once_count"], "code": r["faith"]["code_same"], "incs": r["faith"]["incs_same"],
                "alone": min(x["alone"] for x in per.values()), "twice": min(x["twice"] for x in per.values()), "linked": min(x["linked"] for x in per.values())}
         obs.append(rec)
         descr[rid] = ("self", None, None, (sid, per))
@@ -385,6 +385,10 @@ def run(ctx):
                 why.append("project includes left in the text: %s" % r["project_includes_left"][:3])
             if r["pragma_once_count"] != 1:
                 why.append("%d '#pragma once' lines" % r["pragma_once_count"])
+            if not r["faith"]["code_same"]:
+                why.append("the text is not the code of the closure's files in the emitted order: %s" % r["faith"]["first_diff"])
+            if not r["faith"]["incs_same"]:
+                why.append("system includes differ from those of the files: %s" % r["faith"]["incs_diff"])
             for c, v in per_cfg.items():
                 if not (v["alone"] and v["twice"] and v["linked"]):
                     why.append("[%s] alone=%d twice=%d two-TUs=%d: %s" % (c, v["alone"], v["twice"], v["linked"], v["diag"][:300]))
